@@ -30,12 +30,43 @@ type statB struct {
 	z      T5 `argmapper:"zed"`
 }
 
+// two DIFFERENT marker structs with the same type name (declared in different functions)
+func localParamsA() reflect.Type {
+	type params struct {
+		am.Struct
+		A T0
+		B T1 `argmapper:",typeOnly"`
+	}
+	return reflect.TypeOf(params{})
+}
+func localParamsB() reflect.Type {
+	type params struct {
+		am.Struct
+		X T2 `argmapper:"ex,subtype=q"`
+		Y T3
+		Z T4
+	}
+	return reflect.TypeOf(params{})
+}
+
+// a marker struct that embeds other exported types
+type Embedded struct{ X int }
+type EmbIface interface{ M0() }
+type statC struct {
+	am.Struct
+	Embedded
+	EmbIface `argmapper:"emb,subtype=e"`
+	K        T0
+}
+
 var _ = statA{}.hidden
 var _ = statB{}.secret
 var _ = statB{}.z
 
 var extraTy = map[int]reflect.Type{
 	20:   reflect.TypeOf(plainStruct{}),
+	23:   reflect.TypeOf(Embedded{}),
+	24:   reflect.TypeOf((*EmbIface)(nil)).Elem(),
 	21:   reflect.PtrTo(reflect.TypeOf(T0(0))),
 	22:   reflect.TypeOf(""),
 	-100: errorType,
@@ -135,6 +166,15 @@ func randMarkerStruct(r *rng) reflect.Type {
 	}
 	if r.chance(12) {
 		return reflect.TypeOf(statB{})
+	}
+	if r.chance(10) {
+		return reflect.TypeOf(statC{})
+	}
+	if r.chance(12) {
+		if r.chance(50) {
+			return localParamsA()
+		}
+		return localParamsB()
 	}
 	n := r.intn(5)
 	pos := 0 // reflect.StructOf only supports an embedded type with methods as the first field
